@@ -960,7 +960,8 @@ func (c *CreateTableStatement) SQL() string {
 	}
 
 	if c.PartitionBy != nil {
-		fmt.Fprintf(sb, " PARTITION BY %s (%s)", c.PartitionBy.Type, strings.Join(c.PartitionBy.Columns, ", "))
+		fmt.Fprintf(sb, " PARTITION BY %s (%s)", c.PartitionBy.Type, strings.Join(safeNames(c.PartitionBy.Columns), ", "))
+		sb.WriteString(partitionDefinitionsSQL(c.Partitions))
 	}
 
 	for _, opt := range c.Options {
@@ -1614,6 +1615,36 @@ func onDuplicateKeySQL(u *UpsertClause) string {
 		upds[i] = exprSQL(upd.Column) + " = " + exprSQL(upd.Value)
 	}
 	return " ON DUPLICATE KEY UPDATE " + strings.Join(upds, ", ")
+}
+
+// partitionDefinitionsSQL renders the parenthesised partition list that may follow
+// PARTITION BY ... (...) in CREATE TABLE.
+func partitionDefinitionsSQL(parts []PartitionDefinition) string {
+	if len(parts) == 0 {
+		return ""
+	}
+	defs := make([]string, len(parts))
+	for i := range parts {
+		p := &parts[i]
+		def := "PARTITION " + safeName(p.Name) + " VALUES"
+		switch {
+		case p.From != nil || p.To != nil:
+			def += " FROM (" + exprSQL(p.From) + ") TO (" + exprSQL(p.To) + ")"
+		case len(p.InValues) > 0:
+			def += " IN (" + exprListSQL(p.InValues) + ")"
+		case p.LessThan != nil:
+			if id, ok := p.LessThan.(*Identifier); ok && id.Table == "" && strings.EqualFold(id.Name, "MAXVALUE") {
+				def += " LESS THAN MAXVALUE"
+			} else {
+				def += " LESS THAN (" + exprSQL(p.LessThan) + ")"
+			}
+		}
+		if p.Tablespace != "" {
+			def += " TABLESPACE " + safeName(p.Tablespace)
+		}
+		defs[i] = def
+	}
+	return " (" + strings.Join(defs, ", ") + ")"
 }
 
 func columnDefSQL(c *ColumnDef) string {
